@@ -1435,7 +1435,7 @@ class Template:
             keys = ctx.globals_keys - self.globals.keys()
 
             if keys:
-                return self.make_module({k: ctx.parent[k] for k in keys})
+                return self.make_module({k: ctx._globals[k] for k in keys})
 
         if self._module is None:
             self._module = self.make_module()
@@ -1449,7 +1449,7 @@ class Template:
             keys = ctx.globals_keys - self.globals.keys()
 
             if keys:
-                return await self.make_module_async({k: ctx.parent[k] for k in keys})
+                return await self.make_module_async({k: ctx._globals[k] for k in keys})
 
         if self._module is None:
             self._module = await self.make_module_async()
